@@ -154,7 +154,7 @@ FLOORS = {
         "ownership:table_columns_0_1": 1, "ownership:table_fortran_ordered_table": 1,
         "eval:distance_mask.grid_input_untouched": 430, "class:grid_dask_backed_all_variables": 82,
         "class:grid_dask_backed_some_variables_only": 18, "class:grid_dask_chunks_several_chunks": 83,
-        "class:grid_dask_chunks_single_chunk": 19, "class:grid_result_still_lazy": 105, "grid_lazy:chunk()": 19,
+        "class:grid_dask_chunks_single_chunk": 19, "grid_lazy:chunk()": 19,
         "grid_lazy:chunk_northing": 17, "grid_lazy:chunk_easting": 20, "grid_lazy:chunk_both_dims": 20,
         "grid_lazy:one_variable_chunked_others_in_memory": 18,
     },
@@ -235,7 +235,7 @@ FLOORS = {
         "ownership:table_fortran_ordered_table": 15, "eval:distance_mask.grid_input_untouched": 6450,
         "class:grid_dask_backed_all_variables": 1230, "class:grid_dask_backed_some_variables_only": 270,
         "class:grid_dask_chunks_several_chunks": 1245, "class:grid_dask_chunks_single_chunk": 285,
-        "class:grid_result_still_lazy": 1575, "grid_lazy:chunk()": 285, "grid_lazy:chunk_northing": 255,
+        "grid_lazy:chunk()": 285, "grid_lazy:chunk_northing": 255,
         "grid_lazy:chunk_easting": 300, "grid_lazy:chunk_both_dims": 300, "grid_lazy:one_variable_chunked_others_in_memory": 270,
     },
 }
